@@ -184,6 +184,9 @@ BENIGN = [
     {"id": "B-reverse-all-keyword-arguments", "transform": "reverse_keywords"},
     {"id": "B-return-through-temporaries", "transform": "return_temporaries"},
     {"id": "B-alif-rebinding-flag", "edits": [E("neural/neurons/linear.py", "        if adapt or (adapt is None and self.training):", "        adapt = adapt or (adapt is None and self.training)\n        if adapt:", 2)]},
+    {"id": "B-repair-of-known-finding-D24", "edits": [
+        E("learn/trainers/homeostasis.py", "state.batchreduce(k.clamp_max(0.0), 0),", "state.batchreduce(-k.clamp_max(0.0), 0),", 2),
+        E("learn/trainers/homeostasis.py", "cell.connection.like_bias(state.batchreduce(k.clamp_max(0.0), 0)),", "cell.connection.like_bias(state.batchreduce(-k.clamp_max(0.0), 0)),", 1)]},
     {"id": "B-helper-commuted", "edits": [E(INFRA, "return (pointer - int(offset)) % size", "return (-int(offset) + pointer) % size")]},
     {"id": "B-push-temp", "edits": [E(INFRA, "        self.write(obs, offset=0, inplace=inplace)\n        self.incr(1)", "        zero = 0\n        self.write(obs, offset=0, inplace=inplace)\n        _ = self.incr(1)")]},
     {"id": "B-lif-extract-temp", "edits": [E("neural/functional/neuron_dynamics.py", "    return rest_v + (voltages - rest_v - extvoltage) * decay + extvoltage", "    relaxed = (voltages - rest_v - extvoltage) * decay\n    return extvoltage + rest_v + relaxed")]},
